@@ -298,12 +298,14 @@ func runC10(c c10Case) (*vh.Violation, vh.Outcome) {
 				t.BlockHash = sim.blockHash(t.Block)
 				t.OrigBlock, t.OrigHash = t.Block, t.BlockHash
 				found0 := countLog("found new message publication transaction")
+				// (only the new block's logs are waited for by their log line: what a watcher does with a removal
+				// notification is its own business)
 				matched := 0
 				if o.B%2 == 0 {
 					matched += sim.publish(t)
-					matched += sim.publishRemoved(t, oldBlock, oldHash)
+					sim.publishRemoved(t, oldBlock, oldHash)
 				} else {
-					matched += sim.publishRemoved(t, oldBlock, oldHash)
+					sim.publishRemoved(t, oldBlock, oldHash)
 					matched += sim.publish(t)
 				}
 				sim.mu.Unlock()
@@ -315,7 +317,7 @@ func runC10(c c10Case) (*vh.Violation, vh.Outcome) {
 				if countLog("found new message publication transaction") < found0+matched {
 					maybeLost[t.Hash] = true
 				}
-				time.Sleep(500 * time.Microsecond)
+				time.Sleep(3 * time.Millisecond)
 				break
 			}
 			sim.mu.Lock()
